@@ -239,32 +239,33 @@ chk:
 static Boolean SplitBit(tStrComp* pArg, Byte* Erg) {
     char*    p;
     tStrComp BitArg;
+    Byte     Bit;
+
+    /* the argument is only split when the part after the dot is a valid bit
+       position: callers fall back to the complete operand otherwise */
 
     p = RQuotPos(pArg->str.p_str, '.');
-    if (!p) {
+    if (!p || (strlen(p + 1) != 1)) {
         return False;
     }
 
-    StrCompSplitRef(pArg, &BitArg, pArg, p);
-
-    if (strlen(BitArg.str.p_str) != 1) {
-        return False;
-    } else if ((*BitArg.str.p_str >= '0') && (*BitArg.str.p_str <= '7')) {
-        *Erg = *BitArg.str.p_str - '0';
-        return True;
+    if ((p[1] >= '0') && (p[1] <= '7')) {
+        Bit = p[1] - '0';
     } else {
-        for (*Erg = 0; *Erg < Reg8Cnt; (*Erg)++) {
-            if (as_toupper(*BitArg.str.p_str) == Reg8Names[*Erg]) {
+        for (Bit = 0; Bit < Reg8Cnt; Bit++) {
+            if (as_toupper(p[1]) == Reg8Names[Bit]) {
                 break;
             }
         }
-        if (*Erg < Reg8Cnt) {
-            *Erg += 8;
-            return True;
-        } else {
+        if (Bit >= Reg8Cnt) {
             return False;
         }
+        Bit += 8;
     }
+
+    StrCompSplitRef(pArg, &BitArg, pArg, p);
+    *Erg = Bit;
+    return True;
 }
 
 static void CodeMem(Byte Entry, Byte Opcode) {
